@@ -82,6 +82,11 @@ def classifiers(classes, cost, seed):
         ("MixtureModelClassifier[similarities]", MixtureModelClassifier(mixture_model=BayesianGaussianMixture(n_components=2, random_state=seed), weight_mode="similarities", class_prior=0.5, **kw), False),
         ("MixtureModelClassifier[GaussianMixture,similarities]", MixtureModelClassifier(mixture_model=GaussianMixture(n_components=2, random_state=seed), weight_mode="similarities", **kw), False),
         ("MixtureModelClassifier[GaussianMixture]", MixtureModelClassifier(mixture_model=GaussianMixture(n_components=2, random_state=seed), **kw), False),
+        # classes NOT declared: classes_ is whatever the (last) training batch shows; the outputs must be consistent with it
+        ("SklearnClassifier[GaussianNB,partial_fit,classes=None]", SklearnClassifier(GaussianNB(), random_state=seed), False),
+        ("SklearnClassifier[SGD,partial_fit,classes=None]", SklearnClassifier(SGDClassifier(loss="log_loss", random_state=seed), random_state=seed), False),
+        ("SklearnClassifier[GaussianNB,classes=None]", SklearnClassifier(GaussianNB(), random_state=seed), False),
+        ("ParzenWindowClassifier[classes=None]", ParzenWindowClassifier(random_state=seed), False),
         ("SlidingWindowClassifier[window=4,only_labeled]", SlidingWindowClassifier(ParzenWindowClassifier(**kw), window_size=4, only_labeled=True, **kw), False),
         ("AnnotatorEnsembleClassifier[soft]", AnnotatorEnsembleClassifier(estimators=[(f"c{i}", ParzenWindowClassifier(random_state=seed)) for i in range(2)], voting="soft", **kw), True),
         ("AnnotatorLogisticRegression[no_intercept,priors]", AnnotatorLogisticRegression(n_annotators=2, fit_intercept=False, annot_prior_full=2, annot_prior_diag=1, weights_prior=0.5, max_iter=20, **kw), True),
@@ -150,6 +155,11 @@ def run(ctx):
             except Exception as e:
                 if scen == "weights" and isinstance(e, (ValueError, ZeroDivisionError, FloatingPointError)) and "Sklearn" in name:
                     continue   # the wrapped sklearn estimator may reject degenerate weights itself
+                if "classes=None" in name and isinstance(e, ValueError):
+                    lab_ = [v != missing and not (isinstance(v, float) and v != v) for v in yv]
+                    if not any(lab_) or ("partial_fit" in name and (not any(lab_[: n // 2]) or not any(lab_[n // 2:]))):
+                        ctx.hist["classes_unknown(documented ValueError)"] += 1
+                        continue   # without declared classes a batch without any label carries no class information
                 ctx.violation(name, "exception:" + err_class(e), repr(e)[:300], rc, what=f"{name}: fit/predict raised {err_class(e)} on an admissible training set ({scen})")
                 continue
             ctx.count(name)
@@ -163,7 +173,7 @@ def run(ctx):
                 ctx.violation(name, msg[0], msg[1], rc, what=f"{name}: {msg[1]}", tags=tags)
                 continue
             # ---- correspondence with the Gallina model ----
-            if hasattr(clf, "predict_freq") and hasattr(clf, "class_prior_") and not multi:
+            if hasattr(clf, "predict_freq") and hasattr(clf, "class_prior_") and not multi and "classes=None" not in name:
                 F = np.asarray(clf.predict_freq(Xq), dtype=float)
                 prior = np.broadcast_to(np.asarray(clf.class_prior_, dtype=float), (K,))
                 for f, p in zip(F, P):
@@ -174,7 +184,7 @@ def run(ctx):
                 code = {c: i for i, c in enumerate(sorted_cls)}
                 for pe, p in zip(Pe, P):
                     rterms.append(f"({zlist([code[c] for c in clf.classes_.tolist()])}, {zlist([code[c] for c in est.classes_.tolist()])}, {qrow(pe)}, {qrow(p)})")
-            if cost is not None:
+            if cost is not None and "classes=None" not in name:
                 code = {c: i for i, c in enumerate(sorted_cls)}
                 cterms.append(f"({zlist([code[c] for c in classes])}, {listlit([qrow(r) for r in cost])}, {listlit([qrow(r) for r in np.asarray(clf.cost_matrix_, dtype=float)])})")
     for tag, fn, terms in (("freq", "check_freq", fterms), ("remap", "check_remap", rterms), ("cost", "check_cost", cterms)):
@@ -192,7 +202,11 @@ def run(ctx):
 def oracle(clf, P, pred, classes, cost, scen, name, Xq):
     K = len(classes)
     cls_ = list(np.asarray(clf.classes_).tolist())
-    if cls_ != sorted(classes):
+    if "classes=None" in name:
+        if cls_ != sorted(cls_) or len(set(cls_)) != len(cls_):
+            return "classes_order", f"classes_ = {cls_} is not sorted / duplicate-free"
+        K, classes, cost = len(cls_), cls_, None
+    elif cls_ != sorted(classes):
         return "classes_order", f"classes_ = {cls_}, declared {classes}"
     if P.shape != (len(Xq), K):
         return "proba_shape", f"predict_proba shape {P.shape}"
